@@ -108,9 +108,9 @@ def correspondence(ctx, replay_cases=None):
     if replay_cases is not None:
         cf = os.path.join(ctx.work, "replay_cases.txt")
         open(cf, "w").write("\n".join(replay_cases) + "\n")
-        rc, o, dt = C.run_harness(exe, ["replay", cf, out])
+        rc, o, dt = C.run_harness(exe, ["replay", cf, out], timeout=900)
     else:
-        rc, o, dt = C.run_harness(exe, ["gen", ctx.seed, ctx.tier, out])
+        rc, o, dt = C.run_harness(exe, ["gen", ctx.seed, ctx.tier, out], timeout=900 if ctx.tier == "quick" else 3000)
     res["impl_s"] = round(dt, 1)
     if rc != 0:
         res["error"] = "harness run failed (rc=%d):\n%s" % (rc, o[-3000:])
